@@ -1,6 +1,7 @@
 import NxProofs.Cipher
 import NxProofs.Refine
 import NxProofs.RefineSend
+import NxProofs.HandlePath
 /-!
 # C01 — two L1 endpoints and the network between them, as one system
 
@@ -72,7 +73,9 @@ inductive SysOp where
   | begin (now : Time) (data : Bytes)  -- the same call, up to its fragment loop (state check, send lock, split)
   | frag (now : Time)                  -- one turn of that loop: `send_fragment` of the next fragment
   | ping (now : Time)                  -- the keep-alive timer of `a` fires: `send_ping()` (numbered from substream 0's counter)
-  | deliver (j : Nat)                  -- the network hands a copy of `net[j]` to `b`
+  | deliver (j : Nat)                  -- the network hands a copy of `net[j]` to `b` (straight to `process_reliable`)
+  | deliverH (now : Time) (j : Nat)    -- the same copy through the whole receive path `b.handle`: gates, acknowledgement, `process_reliable`
+  | inject (now : Time) (p : Packet)   -- somebody hands `b.handle` ANY packet whose signature is not the one `b` expects of it
 
 /-- `send` raises before doing anything (closed connection / invalid substream) -/
 def sendRefused (c : Conn) (sub : Nat) : Bool := decide (c.state ≠ STATE_CONNECTED) || decide (sub > c.maxSub)
@@ -104,6 +107,17 @@ def Sys.step (env : Env) (sub : Nat) (s : Sys) : SysOp → Sys
         | some w => (w.update p.packetId p).2.length
         | none => 0
       { s with b := (s.b.processReliable env p).c, nrel := s.nrel + k }
+  | .deliverH now j =>
+    match s.net[j]? with
+    | none => s
+    | some p =>
+      let k := if s.b.accepts env now p then
+          (match s.b.windows[p.substreamId]? with
+           | some w => (w.update p.packetId p).2.length
+           | none => 0)
+        else 0
+      { s with b := (s.b.handle env now p).c, nrel := s.nrel + k }
+  | .inject now p => { s with b := (s.b.handle env now p).c }
 
 def Sys.run (env : Env) (sub : Nat) (s : Sys) (ops : List SysOp) : Sys := ops.foldl (Sys.step env sub) s
 
@@ -121,6 +135,8 @@ def Sys.opOk (env : Env) (sub : Nat) (s : Sys) : SysOp → Bool
     | f :: _ => (s.a.sendPacket env now (dataPacket sub f)).err.isNone && (s.a.sendPacket env now (dataPacket sub f)).c.linkUp
   | .ping now => decide (sub = 0) && (s.a.sendPing env now).err.isNone && (s.a.sendPing env now).c.linkUp
   | .deliver j => decide (j < s.nrel + 32768 ∧ s.nrel < j + 32768) || decide (s.net.length ≤ j)
+  | .deliverH _ j => decide (j < s.nrel + 32768 ∧ s.nrel < j + 32768) || decide (s.net.length ≤ j)
+  | .inject _ p => decide (p.signature ≠ s.b.expectedSig env p)
 
 def Sys.runOk (env : Env) (sub : Nat) : Sys → List SysOp → Bool
   | _, [] => true
@@ -182,7 +198,7 @@ theorem encodeIf_frag (env : Env) (c c' : Conn) (p : Packet) (isAck : Bool) (d :
     of the connection is not touched -/
 theorem sendPacket_frame (env : Env) (now : Time) (c : Conn) (p : Packet) :
     (c.sendPacket env now p).c.fragmentSize = c.fragmentSize ∧
-    ∀ q ∈ emitted (c.sendPacket env now p), q.substreamId = p.substreamId ∧ q.flags = p.flags := by
+    ∀ q ∈ emitted (c.sendPacket env now p), q.substreamId = p.substreamId ∧ q.flags = p.flags ∧ q.type = p.type := by
   unfold Conn.sendPacket
   simp only []
   split
@@ -199,7 +215,7 @@ theorem sendPacket_frame (env : Env) (now : Time) (c : Conn) (p : Packet) :
       · rw [h.1] at hq
         have : q = _ := List.mem_singleton.mp hq
         subst this
-        split <;> exact ⟨rfl, rfl⟩
+        split <;> exact ⟨rfl, rfl, rfl⟩
 
 theorem sendFrags_frame (env : Env) (now : Time) (sub : Nat) : ∀ (fs : List Frag) (c : Conn),
     (Conn.sendFrags env now sub fs c).c.fragmentSize = c.fragmentSize ∧
@@ -214,7 +230,7 @@ theorem sendFrags_frame (env : Env) (now : Time) (sub : Nat) : ∀ (fs : List Fr
     have hgood : ∀ q ∈ emitted (c.sendPacket env now (dataPacket sub f)), q.substreamId = sub ∧ hasReliable q.flags = true := by
       intro q hq
       have := h1.2 q hq
-      rw [this.1, this.2]
+      rw [this.1, this.2.1]
       have hfl : (dataPacket sub f).flags = FLAG_RELIABLE + FLAG_NEED_ACK + FLAG_HAS_SIZE := rfl
       rw [hfl]
       exact ⟨rfl, by decide⟩
@@ -230,6 +246,49 @@ theorem sendFrags_frame (env : Env) (now : Time) (sub : Nat) : ∀ (fs : List Fr
       rcases List.mem_append.mp hq with h | h
       · exact hgood q h
       · exact h2.2 q h
+
+theorem ordinary_of_fields (q p : Packet) (h : q.flags = p.flags ∧ q.type = p.type) (hp : Ordinary p) : Ordinary q := by
+  obtain ⟨h1, h2⟩ := h
+  exact ⟨by rw [h2]; exact hp.nsyn, by rw [h2]; exact hp.ncon, by rw [h1]; exact hp.nack, by rw [h1]; exact hp.nmulti,
+    by rw [h1]; exact hp.need, by rw [h1]; exact hp.rel⟩
+
+theorem ordinary_data_flags : Ordinary ({ type := TYPE_DATA, flags := FLAG_RELIABLE + FLAG_NEED_ACK + FLAG_HAS_SIZE } : Packet) :=
+  ⟨by decide, by decide, by decide, by decide, by decide, by decide⟩
+
+theorem ordinary_ping_flags : Ordinary ({ type := TYPE_PING, flags := FLAG_RELIABLE + FLAG_NEED_ACK } : Packet) :=
+  ⟨by decide, by decide, by decide, by decide, by decide, by decide⟩
+
+theorem dataPacket_ordinary (sub : Nat) (f : Frag) : Ordinary (dataPacket sub f) :=
+  ordinary_of_fields _ ({ type := TYPE_DATA, flags := FLAG_RELIABLE + FLAG_NEED_ACK + FLAG_HAS_SIZE } : Packet) ⟨rfl, rfl⟩ ordinary_data_flags
+
+theorem sendFrags_ord (env : Env) (now : Time) (sub : Nat) : ∀ (fs : List Frag) (c : Conn),
+    ∀ q ∈ emitted (Conn.sendFrags env now sub fs c), Ordinary q := by
+  intro fs
+  induction fs with
+  | nil => intro c q hq; simp [Conn.sendFrags, emitted, R.ok] at hq
+  | cons f fs ih =>
+    intro c
+    rw [sendFrags_cons]
+    have h1 := sendPacket_frame env now c (dataPacket sub f)
+    have hgood : ∀ q ∈ emitted (c.sendPacket env now (dataPacket sub f)), Ordinary q :=
+      fun q hq => ordinary_of_fields q _ (h1.2 q hq).2 (dataPacket_ordinary sub f)
+    cases he : (c.sendPacket env now (dataPacket sub f)).err with
+    | some e => rw [emitted_bind_err _ _ e he]; exact hgood
+    | none =>
+      rw [emitted_bind_ok _ _ he]
+      intro q hq
+      rcases List.mem_append.mp hq with h | h
+      · exact hgood q h
+      · exact ih _ q h
+
+theorem send_ord (env : Env) (now : Time) (c : Conn) (data : Bytes) (sub : Nat) :
+    ∀ q ∈ emitted (c.send env now data sub), Ordinary q := by
+  unfold Conn.send
+  split
+  · intro q hq; simp [emitted, R.fail] at hq
+  · split
+    · intro q hq; simp [emitted, R.fail] at hq
+    · exact sendFrags_ord env now sub _ c
 
 theorem send_frame (env : Env) (now : Time) (c : Conn) (data : Bytes) (sub : Nat) :
     (c.send env now data sub).c.fragmentSize = c.fragmentSize ∧
@@ -286,7 +345,7 @@ theorem send_cipher (env : Env) (hcomp : ∀ b, env.compress b = b) (now : Time)
 /-- `send_ping()` decomposed: the id comes from substream 0's counter, nothing is encrypted, then `transmit` -/
 theorem sendPing_eq (env : Env) (now : Time) (c : Conn) (n pos : Nat) (hs : SRel c 0 n pos) :
     ∃ (q : Packet) (c2 : Conn), c.sendPing env now = c2.transmit env now q ∧
-      wireOf q = ⟨n, .ping, []⟩ ∧ q.substreamId = 0 ∧ hasReliable q.flags = true ∧
+      wireOf q = ⟨n, .ping, []⟩ ∧ q.substreamId = 0 ∧ hasReliable q.flags = true ∧ Ordinary q ∧
       SRel c2 0 (seqNext n) pos ∧ cipherOf c2 0 = cipherOf c 0 ∧ c2.linkUp = c.linkUp ∧ c2.fragmentSize = c.fragmentSize := by
   obtain ⟨hctr, sc, hsc, hpos⟩ := hs
   have hrel : hasReliable (FLAG_RELIABLE + FLAG_NEED_ACK) = true := by decide
@@ -299,7 +358,8 @@ theorem sendPing_eq (env : Env) (now : Time) (c : Conn) (n pos : Nat) (hs : SRel
     | some x => exact (List.getElem?_eq_some_iff.mp h).1
   simp only [Conn.sendPing, Conn.sendPacket, mkPacket, hack, Conn.assignIf, Bool.false_eq_true, if_false, Conn.assign, hrel, if_true,
     hctr, hne, hnd, ne_eq, not_false_eq_true, Conn.encodeIf, false_and]
-  refine ⟨_, _, rfl, ?_, rfl, hrel, ⟨get_set_self _ _ _ hlt, sc, hsc, hpos⟩, rfl, rfl, rfl⟩
+  refine ⟨_, _, rfl, ?_, rfl, hrel, ordinary_of_fields _ ({ type := TYPE_PING, flags := FLAG_RELIABLE + FLAG_NEED_ACK } : Packet) ⟨rfl, rfl⟩ ordinary_ping_flags,
+    ⟨get_set_self _ _ _ hlt, sc, hsc, hpos⟩, rfl, rfl, rfl⟩
   simp [wireOf, kindOf, hnd]
   decide
 
@@ -312,6 +372,9 @@ structure Cpl (sub : Nat) (ci : Cipher) (size : Nat) (s : Sys) (ch : Chan) : Pro
   acipher : cipherOf s.a sub = ci
   log : s.net.map wireOf = ch.s.log
   netgood : ∀ p ∈ s.net, p.substreamId = sub ∧ hasReliable p.flags = true
+  netord : ∀ p ∈ s.net, Ordinary p
+  blink : s.b.linkUp = true
+  beof : EofState s.b
   sent : s.accepted = ch.s.sent
   opn : ch.s.closing = false
   pend : ch.s.pending = s.pend
@@ -322,12 +385,17 @@ structure Cpl (sub : Nat) (ci : Cipher) (size : Nat) (s : Sys) (ch : Chan) : Pro
   nrel : s.nrel = ch.r.nrel
 
 /-- the L2 operation a system step amounts to (`none`: the step changes nothing) -/
-def Sys.absOp (sub : Nat) (s : Sys) : SysOp → Option Op
+def Sys.absOp (env : Env) (sub : Nat) (s : Sys) : SysOp → Option Op
   | .send _ data => if !s.pend.isEmpty || sendRefused s.a sub then none else some (.send data)
   | .begin _ data => if !s.pend.isEmpty || sendRefused s.a sub then none else some (.begin data)
   | .frag _ => some .frag
   | .ping _ => some .ping
   | .deliver j => some (.arrive j)
+  | .deliverH now j =>
+    match s.net[j]? with
+    | none => none
+    | some p => if s.b.accepts env now p then some (.arrive j) else none
+  | .inject _ _ => none
 
 def stepOpt (ci : Cipher) (size : Nat) (ch : Chan) : Option Op → Chan
   | none => ch
@@ -335,18 +403,41 @@ def stepOpt (ci : Cipher) (size : Nat) (ch : Chan) : Option Op → Chan
 
 def Sys.absOps (env : Env) (sub : Nat) : Sys → List SysOp → List Op
   | _, [] => []
-  | s, op :: ops => (s.absOp sub op).toList ++ Sys.absOps env sub (s.step env sub op) ops
+  | s, op :: ops => (s.absOp env sub op).toList ++ Sys.absOps env sub (s.step env sub op) ops
 
 theorem getElem?_map_some {α β : Type} (f : α → β) (l : List α) (j : Nat) (x : α) (h : l[j]? = some x) :
     (l.map f)[j]? = some (f x) := by
   rw [List.getElem?_map, h]; rfl
 
+/-- a copy of `net[j]` reaching `process_reliable` of the open receiver is the L2 arrival of `log[j]` -/
+theorem cpl_arrive (env : Env) (hdec : ∀ b, env.decompress b = .ok b) (sub : Nat) (ci : Cipher) (size : Nat) (s : Sys) (ch : Chan)
+    (j : Nat) (p : Packet) (h : Cpl sub ci size s ch) (hj : s.net[j]? = some p) (heof : s.b.eof = false) :
+    ∃ w, s.b.windows[p.substreamId]? = some w ∧ ch.s.log[j]? = some (wireOf p) ∧
+      Cpl sub ci size { s with b := (s.b.processReliable env p).c, nrel := s.nrel + (w.update p.packetId p).2.length }
+        { ch with r := ch.r.arrive ci (wireOf p) } := by
+  have hlog : ch.s.log[j]? = some (wireOf p) := by rw [← h.log]; exact getElem?_map_some _ _ _ _ hj
+  have hp := h.netgood p (List.mem_of_getElem? hj)
+  obtain ⟨w, hw, hgw, hwm⟩ := h.bwin
+  refine ⟨w, by rw [hp.1]; exact hw, hlog, ?_⟩
+  have hwl : sub < s.b.windows.length := (List.getElem?_eq_some_iff.mp hw).1
+  obtain ⟨w', hw', hgw', harr, hrr, hwf', hci'⟩ :=
+    processReliable_refines env hdec sub s.b w ch.r.core ch.r.nrel p h.bwf hwl hw hgw hp h.rrel heof
+  have hr : ch.r = ⟨w.map wireOf, ch.r.nrel, ch.r.core⟩ := by rw [hwm]
+  rw [h.bcipher] at harr hrr hci'
+  rw [← hr] at harr hrr
+  have hfr := processReliable_frame env s.b p h.beof
+  refine ⟨h.size, h.srel, h.acipher, h.log, h.netgood, h.netord, by rw [hfr.1]; exact h.blink, hfr.2, h.sent, h.opn, h.pend, hwf',
+    ⟨w', hw', hgw', ?_⟩, hrr, hci', ?_⟩
+  · rw [harr]
+  · show s.nrel + _ = (Receiver.arrive ci ch.r (wireOf p)).nrel
+    rw [harr, h.nrel]
+
 /-- **one step of the system is one step (or none) of the L2 channel, and the coupling is kept** -/
 theorem cpl_step (env : Env) (hcomp : ∀ b, env.compress b = b) (hdec : ∀ b, env.decompress b = .ok b)
     (sub : Nat) (ci : Cipher) (size : Nat) (s : Sys) (ch : Chan) (op : SysOp)
     (h : Cpl sub ci size s ch) (hok : s.opOk env sub op = true) :
-    Cpl sub ci size (s.step env sub op) (stepOpt ci size ch (s.absOp sub op)) ∧
-    (∀ o, s.absOp sub op = some o → Chan.opOk ch o = true) := by
+    Cpl sub ci size (s.step env sub op) (stepOpt ci size ch (s.absOp env sub op)) ∧
+    (∀ o, s.absOp env sub op = some o → Chan.opOk ch o = true) := by
   cases op with
   | send now data =>
     simp only [Sys.absOp]
@@ -383,7 +474,7 @@ theorem cpl_step (env : Env) (hcomp : ∀ b, env.compress b = b) (hdec : ∀ b, 
       simp only [stepOpt, Chan.step, Sys.step, hbusy', Bool.false_eq_true, if_false]
       rw [hsend]
       have hacc : (s.a.send env now data sub).err.isNone = true := hfine.1
-      refine ⟨?_, ?_, ?_, ?_, ?_, ?_, h.opn, h.pend, h.bwf, h.bwin, h.rrel, h.bcipher, h.nrel⟩
+      refine ⟨?_, ?_, ?_, ?_, ?_, ?_, h.blink, h.beof, ?_, h.opn, h.pend, h.bwf, h.bwin, h.rrel, h.bcipher, h.nrel⟩
       · rw [hfr.1]; exact h.size
       · simp only [wiresOf_length]; exact hr.2
       · -- the cipher (key, on/off) of the substream is what it was
@@ -393,6 +484,10 @@ theorem cpl_step (env : Env) (hcomp : ∀ b, env.compress b = b) (hdec : ∀ b, 
         rcases List.mem_append.mp hp with hp | hp
         · exact h.netgood p hp
         · exact hfr.2 p hp
+      · intro p hp
+        rcases List.mem_append.mp hp with hp | hp
+        · exact h.netord p hp
+        · exact send_ord env now s.a data sub p hp
       · simp only [hacc, Bool.true_and]
         cases data.isEmpty <;> simp [h.sent]
   | begin now data =>
@@ -410,7 +505,7 @@ theorem cpl_step (env : Env) (hcomp : ∀ b, env.compress b = b) (hdec : ∀ b, 
           { ch.s with pending := split size data, sent := if data.isEmpty then ch.s.sent else ch.s.sent ++ [data] } := by
         simp [Sender.begin, h.opn, hpend0]
       rw [hb]
-      refine ⟨h.size, h.srel, h.acipher, h.log, h.netgood, ?_, h.opn, ?_, h.bwf, h.bwin, h.rrel, h.bcipher, h.nrel⟩
+      refine ⟨h.size, h.srel, h.acipher, h.log, h.netgood, h.netord, h.blink, h.beof, ?_, h.opn, ?_, h.bwf, h.bwin, h.rrel, h.bcipher, h.nrel⟩
       · show (if data.isEmpty then s.accepted else s.accepted ++ [data]) = _
         rw [h.sent]
       · show split size data = split s.a.fragmentSize data
@@ -453,16 +548,21 @@ theorem cpl_step (env : Env) (hcomp : ∀ b, env.compress b = b) (hdec : ∀ b, 
         simp [Sender.frag, hpendc]
       simp only [Sys.step, hp]
       rw [hfrag, hem]
-      refine ⟨?_, ?_, ?_, ?_, ?_, h.sent, h.opn, rfl, h.bwf, h.bwin, h.rrel, h.bcipher, h.nrel⟩
+      refine ⟨?_, ?_, ?_, ?_, ?_, ?_, h.blink, h.beof, h.sent, h.opn, rfl, h.bwf, h.bwin, h.rrel, h.bcipher, h.nrel⟩
       · rw [hfr.1]; exact h.size
       · rw [heq]; exact hst.1
       · rw [heq, hst.2]; exact hc2
       · simp only [List.map_append, List.map_cons, List.map_nil, h.log, hwire]
+      rotate_left
+      · intro p hpm
+        rcases List.mem_append.mp hpm with hpm | hpm
+        · exact h.netord p hpm
+        · exact ordinary_of_fields p _ (hfr.2 p (by rw [hem]; exact hpm)).2 (dataPacket_ordinary sub f)
       · intro p hpm
         rcases List.mem_append.mp hpm with hpm | hpm
         · exact h.netgood p hpm
         · have := hfr.2 p (by rw [hem]; exact hpm)
-          rw [this.1, this.2]
+          rw [this.1, this.2.1]
           have hfl : (dataPacket sub f).flags = FLAG_RELIABLE + FLAG_NEED_ACK + FLAG_HAS_SIZE := rfl
           rw [hfl]; exact ⟨rfl, by decide⟩
   | ping now =>
@@ -471,7 +571,7 @@ theorem cpl_step (env : Env) (hcomp : ∀ b, env.compress b = b) (hdec : ∀ b, 
     simp only [Sys.opOk, Bool.and_eq_true, decide_eq_true_eq] at hok
     obtain ⟨⟨hsub, herr⟩, hlink⟩ := hok
     subst hsub
-    obtain ⟨q, c2, heq, hwire, hq0, hqr, hs2, hc2, hl2, hf2⟩ := sendPing_eq env now s.a ch.s.nextId ch.s.encPos h.srel
+    obtain ⟨q, c2, heq, hwire, hq0, hqr, hqo, hs2, hc2, hl2, hf2⟩ := sendPing_eq env now s.a ch.s.nextId ch.s.encPos h.srel
     have ht := transmit_emit env now c2 q
     have hst := srel_transmit env now c2 q 0 _ _ hs2
     have hem : emitted (s.a.sendPing env now) = [q] := by
@@ -488,11 +588,17 @@ theorem cpl_step (env : Env) (hcomp : ∀ b, env.compress b = b) (hdec : ∀ b, 
       · exact h1.1
     simp only [Sys.step, Sender.ping]
     rw [hem]
-    refine ⟨?_, ?_, ?_, ?_, ?_, h.sent, h.opn, h.pend, h.bwf, h.bwin, h.rrel, h.bcipher, h.nrel⟩
+    refine ⟨?_, ?_, ?_, ?_, ?_, ?_, h.blink, h.beof, h.sent, h.opn, h.pend, h.bwf, h.bwin, h.rrel, h.bcipher, h.nrel⟩
     · rw [heq, transmit_frag, hf2]; exact h.size
     · rw [heq]; exact hst.1
     · rw [heq, hst.2, hc2]; exact h.acipher
     · simp only [List.map_append, List.map_cons, List.map_nil, h.log, hwire]
+    rotate_left
+    · intro p hpm
+      rcases List.mem_append.mp hpm with hpm | hpm
+      · exact h.netord p hpm
+      · have : p = q := List.mem_singleton.mp hpm
+        subst this; exact hqo
     · intro p hpm
       rcases List.mem_append.mp hpm with hpm | hpm
       · exact h.netgood p hpm
@@ -506,33 +612,59 @@ theorem cpl_step (env : Env) (hcomp : ∀ b, env.compress b = b) (hdec : ∀ b, 
         have : ch.s.log[j]? = none := by rw [← h.log, List.getElem?_map, hj]; rfl
         simp only [Sys.step, hj, this]; exact h
       | some p =>
-        have hlog : ch.s.log[j]? = some (wireOf p) := by rw [← h.log]; exact getElem?_map_some _ _ _ _ hj
-        have hp := h.netgood p (List.mem_of_getElem? hj)
-        obtain ⟨w, hw, hgw, hwm⟩ := h.bwin
-        simp only [Sys.step, hj, hlog]
         cases heof : s.b.eof with
         | true =>
           -- both sides ignore the packet
+          have hlog : ch.s.log[j]? = some (wireOf p) := by rw [← h.log]; exact getElem?_map_some _ _ _ _ hj
           have hcl : ch.r.core.closed = true := by rw [h.rrel.closed]; exact heof
-          simp only [if_true, Receiver.arrive, hcl]
+          simp only [Sys.step, hj, hlog, heof, if_true, Receiver.arrive, hcl]
           exact h
         | false =>
-          simp only [Bool.false_eq_true, if_false, hp.1, hw]
-          have hwl : sub < s.b.windows.length := (List.getElem?_eq_some_iff.mp hw).1
-          obtain ⟨w', hw', hgw', harr, hrr, hwf', hci'⟩ :=
-            processReliable_refines env hdec sub s.b w ch.r.core ch.r.nrel p h.bwf hwl hw hgw hp h.rrel heof
-          have hr : ch.r = ⟨w.map wireOf, ch.r.nrel, ch.r.core⟩ := by rw [hwm]
-          rw [h.bcipher] at harr hrr hci'
-          rw [← hr] at harr hrr
-          refine ⟨h.size, h.srel, h.acipher, h.log, h.netgood, h.sent, h.opn, h.pend, hwf', ⟨w', hw', hgw', ?_⟩, hrr, hci', ?_⟩
-          · rw [harr]
-          · show s.nrel + _ = (Receiver.arrive ci ch.r (wireOf p)).nrel
-            rw [harr, h.nrel]
+          obtain ⟨w, hw, hlog, hc⟩ := cpl_arrive env hdec sub ci size s ch j p h hj heof
+          simp only [Sys.step, hj, hlog, heof, Bool.false_eq_true, if_false, hw]
+          exact hc
     · cases ho
       simp only [Sys.opOk] at hok
       simp only [Chan.opOk]
       rw [← h.nrel, ← h.log, List.length_map]
       exact hok
+
+  | deliverH now j =>
+    simp only [Sys.absOp]
+    cases hj : s.net[j]? with
+    | none => simp only [stepOpt, Sys.step, hj]; exact ⟨h, fun o ho => by cases ho⟩
+    | some p =>
+      have hord := h.netord p (List.mem_of_getElem? hj)
+      have hpath := handle_reliable_path env now s.b p hord h.blink
+      cases hacc : s.b.accepts env now p with
+      | false =>
+        simp only [Bool.false_eq_true, if_false, stepOpt, Sys.step, hj, hacc, Nat.add_zero]
+        rw [hpath, hacc]
+        exact ⟨h, fun o ho => by cases ho⟩
+      | true =>
+        simp only [if_true, stepOpt, Chan.step, Sys.step, hj, hacc]
+        rw [hpath, hacc]
+        have heof : s.b.eof = false := by
+          cases he : s.b.eof with
+          | false => rfl
+          | true =>
+            have hst := h.beof he
+            unfold Conn.accepts at hacc
+            simp [hst] at hacc
+        obtain ⟨w, hw, hlog, hc⟩ := cpl_arrive env hdec sub ci size s ch j p h hj heof
+        simp only [hlog, hw, if_true]
+        refine ⟨hc, fun o ho => ?_⟩
+        cases ho
+        simp only [Sys.opOk] at hok
+        simp only [Chan.opOk]
+        rw [← h.nrel, ← h.log, List.length_map]
+        exact hok
+  | inject now p =>
+    simp only [Sys.absOp, stepOpt, Sys.step]
+    simp only [Sys.opOk, decide_eq_true_eq] at hok
+    have := (handle_bad_signature env now s.b p hok).1
+    rw [this]
+    exact ⟨h, fun o ho => by cases ho⟩
 
 /-! ## whole runs -/
 
@@ -566,14 +698,14 @@ theorem run_toList (ci : Cipher) (size : Nat) (ch : Chan) (o : Option Op) :
 theorem good_step (env : Env) (hcomp : ∀ b, env.compress b = b) (hdec : ∀ b, env.decompress b = .ok b)
     (sub : Nat) (ci : Cipher) (size : Nat) (hsz : 1 ≤ size) (start : Nat) (s : Sys) (ch : Chan) (op : SysOp)
     (h : Good sub ci size start s ch) (hok : s.opOk env sub op = true) :
-    Good sub ci size start (s.step env sub op) (stepOpt ci size ch (s.absOp sub op)) ∧
-    Chan.runOk ci size ch (s.absOp sub op).toList = true := by
+    Good sub ci size start (s.step env sub op) (stepOpt ci size ch (s.absOp env sub op)) ∧
+    Chan.runOk ci size ch (s.absOp env sub op).toList = true := by
   obtain ⟨hc, hop⟩ := cpl_step env hcomp hdec sub ci size s ch op h.cpl hok
-  have hrun : Chan.runOk ci size ch (s.absOp sub op).toList = true := by
-    cases ho : s.absOp sub op with
+  have hrun : Chan.runOk ci size ch (s.absOp env sub op).toList = true := by
+    cases ho : s.absOp env sub op with
     | none => rfl
     | some o => simp [Chan.runOk, hop o ho]
-  have hinv := inv_run ci (good_cipher h) size hsz start (s.absOp sub op).toList ch h.snd h.rcv hrun
+  have hinv := inv_run ci (good_cipher h) size hsz start (s.absOp env sub op).toList ch h.snd h.rcv hrun
   rw [run_toList] at hinv
   exact ⟨⟨hc, hinv.1, hinv.2⟩, hrun⟩
 
@@ -620,7 +752,8 @@ end Nx.L1
 namespace Nx.L1
 open Nx Nx.Prudp Nx.Chan Nx.Crypto
 
-/-- two endpoints as `PRUDPClient.__init__` leaves them (the sender already CONNECTED), nothing on the wire yet -/
+/-- two endpoints as `PRUDPClient.__init__` leaves them (states and the receiver's view of the peer's session id as the
+    handshake sets them), nothing on the wire yet -/
 def Sys.fresh (a b : Conn) : Sys := { a := a, b := b, net := [], accepted := [], nrel := 0 }
 
 theorem replicate_get {α : Type} (n i : Nat) (x : α) (h : i < n) : (List.replicate n x)[i]? = some x := by
@@ -630,9 +763,10 @@ theorem replicate_get {α : Type} (n i : Nat) (x : α) (h : i < n) : (List.repli
     allow, two freshly constructed endpoints (any addresses, ports, session ids, random draws) and the initial L2 channel
     with first id 1 are coupled, and the channel invariants hold -/
 theorem fresh_good (env : Env) (sub : Nat) (hsub : sub ≤ env.s.maxSubstreamId)
-    (va vb : Option Nat) (ua ca sa ub cb sb : Nat) (la ra lb rb : Addr) (lpa lta rpa rta lpb ltb rpb rtb : Nat) (st : Nat) :
+    (va vb : Option Nat) (ua ca sa ub cb sb : Nat) (la ra lb rb : Addr) (lpa lta rpa rta lpb ltb rpb rtb : Nat) (st stb : Nat)
+    (rsb : Option Nat) :
     let a := { Conn.new env va ua ca sa la lpa lta ra rpa rta with state := st }
-    let b := Conn.new env vb ub cb sb lb lpb ltb rb rpb rtb
+    let b := { Conn.new env vb ub cb sb lb lpb ltb rb rpb rtb with state := stb, remoteSessionId := rsb }
     Good sub (cipherOf a sub) env.s.fragmentSize 1 (Sys.fresh a b) (Chan.init 1) := by
   intro a b
   have hn : sub < env.s.maxSubstreamId + 1 := by omega
@@ -647,6 +781,9 @@ theorem fresh_good (env : Env) (sub : Nat) (hsub : sub ≤ env.s.maxSubstreamId)
       acipher := rfl
       log := rfl
       netgood := fun p hp => by cases hp
+      netord := fun p hp => by cases hp
+      blink := rfl
+      beof := fun he => by cases he
       sent := rfl
       opn := rfl
       pend := rfl
